@@ -639,6 +639,138 @@ Proof.
       [apply get_default_owner | apply get_host_owner]; exact H.
 Qed.
 
+(** ---- the hosts [clear_response_caches] / [clear_file_caches] walk over ------------------------
+    The map as a list: every key occurs once, and a [Host] value sits under its own name. *)
+Definition uniq (m : hmap) : Prop := forall k v, In (k, v) m -> hm_get k m = Some v.
+Definition hostkeys (m : hmap) : Prop := forall k h, In (k, HHost h) m -> k = hname h.
+
+Lemma hm_get_in k v m : hm_get k m = Some v -> In (k, v) m.
+Proof.
+  induction m as [|[k0 v0] m IH]; cbn [hm_get]; [discriminate|].
+  destruct (beq k0 k) eqn:E.
+  - intros Hv. inversion Hv; subst. apply beq_eq in E. subst. left. reflexivity.
+  - intros Hv. right. apply IH. exact Hv.
+Qed.
+
+Lemma in_remove k k' v m : In (k', v) (hm_remove k m) -> In (k', v) m /\ beq k k' = false.
+Proof.
+  induction m as [|[k0 v0] m IH]; cbn [hm_remove]; [intros []|].
+  destruct (beq k0 k) eqn:E.
+  - intros Hin. apply IH in Hin as [Hin Hb]. split; [right; exact Hin | exact Hb].
+  - intros [Heq|Hin].
+    + inversion Heq; subst. split; [left; reflexivity|]. rewrite beq_sym. exact E.
+    + apply IH in Hin as [Hin Hb]. split; [right; exact Hin | exact Hb].
+Qed.
+
+Lemma uniq_insert k v m : uniq m -> uniq (hm_insert k v m).
+Proof.
+  intros Hu k' v' Hin. rewrite hm_get_insert. unfold hm_insert in Hin. destruct Hin as [Heq|Hin].
+  - inversion Heq; subst. rewrite beq_refl. reflexivity.
+  - apply in_remove in Hin as [Hin Hb]. rewrite beq_sym, Hb. apply Hu. exact Hin.
+Qed.
+
+Lemma hostkeys_insert k v m : (forall h, v = HHost h -> k = hname h) -> hostkeys m -> hostkeys (hm_insert k v m).
+Proof.
+  intros Hv Hk k' h Hin. unfold hm_insert in Hin. destruct Hin as [Heq|Hin].
+  - inversion Heq; subst. apply Hv. reflexivity.
+  - apply in_remove in Hin as [Hin _]. apply (Hk _ _ Hin).
+Qed.
+
+Lemma inv_insert_alts name alts : forall m, uniq m /\ hostkeys m -> uniq (insert_alts name alts m) /\ hostkeys (insert_alts name alts m).
+Proof.
+  unfold insert_alts. induction alts as [|a alts IH]; intros m Hm; cbn [fold_left]; [exact Hm|].
+  apply IH. destruct Hm as [Hu Hk]. split; [apply uniq_insert; exact Hu|].
+  apply hostkeys_insert; [intros h E; discriminate | exact Hk].
+Qed.
+
+Lemma inv_insert_maps hs : forall id m, uniq m /\ hostkeys m -> uniq (insert_maps id hs m) /\ hostkeys (insert_maps id hs m).
+Proof.
+  induction hs as [|h rest IH]; intros id m Hm; cbn [insert_maps]; [exact Hm|].
+  apply IH. unfold insert_map.
+  destruct (inv_insert_alts (h_name h) (h_alts h) m Hm) as [Hu Hk].
+  split; [apply uniq_insert; exact Hu|].
+  apply hostkeys_insert; [|exact Hk]. intros h0 E. inversion E. reflexivity.
+Qed.
+
+Lemma built_map_inv ops c : build ops = Ok c -> uniq (c_by_name c) /\ hostkeys (c_by_name c).
+Proof.
+  intros H. apply build_from_ok in H as [Hm _]. cbn [empty_collection c_by_name] in Hm. rewrite Hm.
+  apply inv_insert_maps. split; intros k v [].
+Qed.
+
+(** a host that owns its own name is stored under it *)
+Lemma owner_own_stored hs : forall id m n r,
+  owner id hs n = Some r -> hname r = n -> hm_get n (insert_maps id hs m) = Some (HHost r).
+Proof.
+  induction hs as [|h rest IH]; intros id m n r Ho Hn; cbn [owner insert_maps] in *; [discriminate|].
+  destruct (owner (S id) rest n) as [r'|] eqn:E.
+  - inversion Ho; subst r'. apply IH; [exact E | exact Hn].
+  - destruct (named n h) eqn:Hnamed; [|discriminate].
+    destruct (owner (S id) rest (h_name h)) as [r'|] eqn:E2.
+    + exfalso. inversion Ho; subst r'.
+      destruct (owner_is_host _ _ _ _ E2) as [h0 [_ [Hnth Hname]]].
+      rewrite owner_none_iff in E. specialize (E h0 (nth_error_In _ _ Hnth)).
+      rewrite <- Hn, Hname, named_own in E. discriminate.
+    + inversion Ho; subst r. cbn [hname] in Hn. subst n.
+      destruct (resolve_insert_maps rest (S id) (insert_map id h m) (h_name h)) as [_ H2].
+      rewrite (H2 E), get_insert_map, beq_refl. reflexivity.
+Qed.
+
+Lemma stored_hosts_in c h : hostkeys (c_by_name c) ->
+  In h (stored_hosts c) <-> In (hname h, HHost h) (c_by_name c).
+Proof.
+  intros Hk. unfold stored_hosts. rewrite in_flat_map. split.
+  - intros [[k v] [Hin Hh]]. cbn [snd] in Hh. destruct v as [h'|r]; [|destruct Hh].
+    destruct Hh as [->|[]]. rewrite <- (Hk _ _ Hin). exact Hin.
+  - intros Hin. exists (hname h, HHost h). split; [exact Hin | left; reflexivity].
+Qed.
+
+(** [clear_response_caches(filter)] reaches exactly the hosts the specification names *)
+Lemma clear_all_targets_spec ops c flt i : build ops = Ok c ->
+  existsb (fun h => Nat.eqb (hid h) i) (clear_all_targets c flt) = cleared_by_all ops flt i.
+Proof.
+  intros H. destruct (built_map_inv _ _ H) as [Hu Hk].
+  pose proof (build_from_ok _ _ _ _ H) as [Hm _]. cbn [empty_collection c_by_name] in Hm.
+  apply Bool.eq_iff_eq_true. rewrite existsb_exists. unfold clear_all_targets, cleared_by_all. split.
+  - intros [h [Hin Hi]]. apply filter_In in Hin as [Hin Hf]. apply Nat.eqb_eq in Hi.
+    apply (stored_hosts_in _ _ Hk) in Hin. apply Hu in Hin.
+    assert (Hown : own ops (hname h) = Some h).
+    { pose proof (get_host_owner _ _ (hname h) H) as Hg. unfold get_host in Hg.
+      rewrite (resolve_host _ _ _ _ Hin) in Hg. inversion Hg. reflexivity. }
+    destruct (owner_is_host _ _ _ _ Hown) as [hc [_ [Hnth Hname]]]. rewrite Nat.sub_0_r, Hi in Hnth.
+    fold (hosts_of ops). rewrite Hnth. rewrite <- Hname. fold (own ops (hname h)). rewrite Hown.
+    rewrite Hf, Hi, Nat.eqb_refl. reflexivity.
+  - fold (hosts_of ops). destruct (nth_error (hosts_of ops) i) as [hc|] eqn:Hnth; [|discriminate].
+    intros Hb. apply andb_prop in Hb as [Hf Ho].
+    fold (own ops (h_name hc)) in Ho. destruct (own ops (h_name hc)) as [r|] eqn:Hown; [|discriminate].
+    apply Nat.eqb_eq in Ho.
+    destruct (owner_is_host _ _ _ _ Hown) as [h0 [_ [Hnth0 Hname]]]. rewrite Nat.sub_0_r, Ho, Hnth in Hnth0.
+    inversion Hnth0; subst h0.
+    exists r. split; [|apply Nat.eqb_eq; exact Ho].
+    apply filter_In. split.
+    + apply (stored_hosts_in _ _ Hk). apply hm_get_in. rewrite Hm, Hname.
+      apply owner_own_stored; [exact Hown | exact Hname].
+    + rewrite Hname. exact Hf.
+Qed.
+
+Lemma clear_all_targets_members ops c flt i : build ops = Ok c ->
+  In i (map hid (clear_all_targets c flt)) <-> cleared_by_all ops flt i = true.
+Proof.
+  intros H. rewrite <- (clear_all_targets_spec _ _ _ _ H), existsb_exists, in_map_iff. split.
+  - intros [h [Hi Hin]]. exists h. split; [exact Hin | apply Nat.eqb_eq; exact Hi].
+  - intros [h [Hin Hi]]. exists h. split; [apply Nat.eqb_eq; exact Hi | exact Hin].
+Qed.
+
+(** [clear_page] / [clear_file]: the host the specification names *)
+Lemma clear_target_reference ops c name : build ops = Ok c ->
+  omap hid (clear_target V1 c name) = Ok (clear_reference ops name).
+Proof.
+  intros H. rewrite (clear_target_general _ _ _ H). unfold clear_reference, is_default_name, dflt_owner, own, hosts_of.
+  cbn [omap]. destruct (beq name [] || beq name s_default); [|reflexivity].
+  destruct (default_index O ops) as [d|]; [|reflexivity].
+  destruct (nth_error (map snd ops) d); reflexivity.
+Qed.
+
 (** ---- refutations of the snapshot (V0) ------------------------------------------------------ *)
 Definition cfg (name : bytes) (alts : list bytes) : hostcfg := {| h_name := name; h_alts := alts |}.
 
@@ -786,42 +918,321 @@ Proof.
   destruct (serve (hid h) (st (hid h)) p) as [s' rep]. reflexivity.
 Qed.
 
-(** The loopback histories of the correspondence: the model of the code equals the
-    specification server, except that a request without Host header is not answered at all
-    when there is no default host (the HTTP/1 reader fails with NoHost first). *)
-Lemma conn_history_spec ops c : build ops = Ok c ->
-  forall reqs st,
-  Forall (fun r => fst r <> [] \/ default_index O ops <> None) reqs ->
-  conn_history V1 c st reqs = map Ok (conn_spec ops st reqs).
+(** ---- lookups by the authority of the URI ------------------------------------------------------ *)
+Definition is_text (a : bytes) : Prop := hv_to_str a = Some a.
+
+Lemma hv_to_str_some hv h : hv_to_str hv = Some h -> h = hv /\ is_text hv.
 Proof.
-  intros H. induction reqs as [|[hh p] rest IH]; intros st Hall; [reflexivity|].
-  inversion Hall as [|x l Hr Hrest]; subst. cbn [fst] in Hr.
-  cbn [conn_history conn_spec].
-  assert (Hreq : conn_request V1 c st hh p =
-                 Ok (rstep hstate (list bytes * bytes) wire_reply conn_serve (conn_route ops) W409 st (hh, p))).
-  { unfold conn_request.
-    assert (Hgo : match choose_host V1 c None (wire_hosts hh) with
-                  | Ok Refuse409 => Ok (st, W409)
-                  | Ok (ServeWith h) =>
-                      let i := hid h in
-                      let (s', rep) := marker_serve i (st i) p in Ok (upd st i s', W200 (fst rep) (snd rep))
-                  | Err e => Err e
-                  | Panic => Panic
-                  end = Ok (rstep hstate (list bytes * bytes) wire_reply conn_serve (conn_route ops) W409 st (hh, p))).
-    { rewrite (choose_host_general _ _ _ _ H). unfold rstep, conn_route, conn_serve. cbn [fst snd].
+  unfold is_text, hv_to_str. destruct (forallb hv_visible hv); [|discriminate].
+  intros E. inversion E. split; reflexivity.
+Qed.
+
+Lemma requested_name_text sni a : is_text a ->
+  requested_name sni (Some a) = match sni with Some s => Some s | None => Some a end.
+Proof.
+  intros Ht. unfold requested_name. destruct sni; [reflexivity|].
+  unfold is_text in Ht. rewrite hv_to_str_spec in Ht.
+  destruct (forallb (fun c => ((32 <=? c) && (c <=? 126)) || (c =? 9)) a); [reflexivity | discriminate].
+Qed.
+
+Lemma first_some_none {A} (a : option A) : first_some a None = a.
+Proof. destruct a; reflexivity. Qed.
+
+Lemma get_from_request_is_uri b v c sni hh : get_from_request v c sni hh = get_from_request_uri b v c sni hh None.
+Proof.
+  unfold get_from_request, get_from_request_uri, text_hd.
+  replace (if b then @None bytes else None) with (@None bytes) by (destruct b; reflexivity).
+  rewrite first_some_none. reflexivity.
+Qed.
+
+Lemma get_option_or_default_general ops c name : build ops = Ok c ->
+  get_option_or_default V1 c name = Ok (route_general ops name None).
+Proof.
+  intros H. destruct name as [n|]; cbn [get_option_or_default]; unfold route_general, requested_name.
+  - apply get_or_default_general. exact H.
+  - apply get_default_owner. exact H.
+Qed.
+
+(** the name [get_from_request] looks up, when header and authority (if any) are text *)
+Lemma requested_name_uri sni hh authority : (forall a, authority = Some a -> is_text a) ->
+  requested_name sni (first_some (text_hd hh) authority)
+  = match sni with Some s => Some s | None => first_some (text_hd hh) authority end.
+Proof.
+  intros Ha. destruct sni as [s|]; [reflexivity|].
+  destruct (text_hd hh) as [h|] eqn:E; cbn [first_some].
+  - unfold text_hd in E. destruct hh as [|hv hh]; [discriminate|].
+    apply hv_to_str_some in E as [-> Ht]. apply (requested_name_text None). exact Ht.
+  - destruct authority as [a|]; [|reflexivity]. apply (requested_name_text None). apply Ha. reflexivity.
+Qed.
+
+Lemma get_from_request_uri_general ops c sni hh authority : build ops = Ok c ->
+  (forall a, authority = Some a -> is_text a) ->
+  get_from_request_uri true V1 c sni hh authority = Ok (route_general ops sni (first_some (text_hd hh) authority)).
+Proof.
+  intros H Ha. unfold get_from_request_uri, route_general. rewrite (requested_name_uri sni hh authority Ha).
+  destruct (match sni with Some s => Some s | None => first_some (text_hd hh) authority end) as [n|];
+    cbn [get_option_or_default].
+  - apply get_or_default_general. exact H.
+  - apply get_default_owner. exact H.
+Qed.
+
+Lemma choose_host_uri_general ops c sni hh authority : build ops = Ok c ->
+  (forall a, authority = Some a -> is_text a) ->
+  choose_host_uri true V1 c sni hh authority =
+  Ok (match route_general ops sni (first_some (text_hd hh) authority) with Some r => ServeWith r | None => Refuse409 end).
+Proof.
+  intros H Ha. unfold choose_host_uri. rewrite (get_from_request_uri_general _ _ _ _ _ H Ha).
+  destruct (route_general ops sni (first_some (text_hd hh) authority)) as [r|] eqn:E; [|reflexivity].
+  rewrite (get_host_owner _ _ _ H), (route_general_idem _ _ _ _ E). reflexivity.
+Qed.
+
+(** whatever the authority of the URI is: the choice never fails *)
+Lemma choose_host_uri_total ops c b sni hh authority : build ops = Ok c ->
+  exists ch, choose_host_uri b V1 c sni hh authority = Ok ch.
+Proof.
+  intros H. unfold choose_host_uri, get_from_request_uri.
+  rewrite (get_option_or_default_general _ _ _ H).
+  destruct (route_general ops _ None) as [r|] eqn:E; [|eexists; reflexivity].
+  rewrite (get_host_owner _ _ _ H), (route_general_idem _ _ _ _ E). eexists; reflexivity.
+Qed.
+
+(** the text filter of the reference is idempotent *)
+Lemma requested_name_text_hd sni hh : requested_name sni (text_hd hh) = requested_name sni (hd_error hh).
+Proof.
+  unfold requested_name. destruct sni; [reflexivity|].
+  destruct hh as [|hv hh]; [reflexivity|]. cbn [text_hd hd_error]. rewrite hv_to_str_spec.
+  destruct (forallb (fun c => ((32 <=? c) && (c <=? 126)) || (c =? 9)) hv) eqn:E; [rewrite E|]; reflexivity.
+Qed.
+
+Lemma route_general_text_hd ops sni hh : route_general ops sni (text_hd hh) = route_general ops sni (hd_error hh).
+Proof. unfold route_general. rewrite requested_name_text_hd. reflexivity. Qed.
+
+(** the default host's name is owned by somebody (at least by the default host itself) *)
+Lemma default_name_owned ops c d : build ops = Ok c -> c_default c = Some d ->
+  exists r, own ops d = Some r /\ dflt_owner ops = Some r.
+Proof.
+  intros H Hd.
+  pose proof (build_from_ok _ _ _ _ H) as [_ [_ [_ Hdf]]].
+  unfold default_name in Hdf. cbn [empty_collection c_default] in Hdf. rewrite Hd in Hdf.
+  unfold dflt_owner.
+  destruct (default_index O ops) as [di|] eqn:E; [|discriminate].
+  rewrite Nat.sub_0_r in Hdf.
+  destruct (nth_error (hosts_of ops) di) as [h|] eqn:En; [|discriminate].
+  cbn [option_map] in Hdf. inversion Hdf; subst d.
+  destruct (own ops (h_name h)) as [r|] eqn:Eo; [exists r; split; reflexivity|].
+  exfalso. unfold own in Eo. rewrite owner_none_iff in Eo.
+  specialize (Eo h (nth_error_In _ _ En)). rewrite named_own in Eo. discriminate.
+Qed.
+
+Lemma route_general_default_name ops c sni d : build ops = Ok c -> c_default c = Some d -> is_text d ->
+  route_general ops sni (Some d) = route_general ops sni None.
+Proof.
+  intros H Hd Ht. unfold route_general. rewrite (requested_name_text sni d Ht).
+  destruct sni as [s|]; [reflexivity|]. cbn [requested_name].
+  destruct (default_name_owned _ _ _ H Hd) as [r [Ho Hdo]]. rewrite Ho, Hdo. reflexivity.
+Qed.
+
+(** ---- the histories over loopback connections ---------------------------------------------------- *)
+Section WireProofs.
+  Variable auth_ok : bytes -> bool.
+  (** what is used of [http::uri::Authority::try_from]: it accepts only text (visible ASCII) *)
+  Hypothesis auth_text : forall h, auth_ok h = true -> is_text h.
+
+  (** a request the clients of the harness can send: origin-form target; the [:authority] of an HTTP/2 request is text *)
+  Definition wf_wreq (r : wreq) : Prop :=
+    starts_with [47] (w_path r) = true /\ forall a, w_tr r = TR_H2 -> w_authority r = Some a -> is_text a.
+
+  (** After the repairs every HTTP/1.x request is accepted, and what [get_from_request] makes of its header
+      and URI is what the reference makes of its last Host line. *)
+  Lemma h1_accept_fixed ops c hh target sni : build ops = Ok c -> starts_with [47] target = true ->
+    exists authority, h1_accept auth_ok fixed c hh target = Some (wire_hosts hh, authority) /\
+      (forall a, authority = Some a -> is_text a) /\
+      route_general ops sni (first_some (text_hd (wire_hosts hh)) authority)
+      = route_general ops sni (hd_error (wire_hosts hh)).
+  Proof.
+    intros H Hof. unfold h1_accept. cbn [fixed fx_nohost fx_authority]. rewrite Hof. cbn [andb].
+    destruct (wire_hosts hh) as [|h l] eqn:Ew.
+    - destruct (c_default c) as [d|] eqn:Hd.
+      + destruct (auth_ok d) eqn:Ea.
+        * exists (Some d). split; [reflexivity|]. split; [intros a E; inversion E; subst; apply auth_text; exact Ea|].
+          cbn [text_hd first_some hd_error]. apply (route_general_default_name _ _ _ _ H Hd). apply auth_text. exact Ea.
+        * exists None. split; [reflexivity|]. split; [discriminate|]. reflexivity.
+      + exists None. split; [reflexivity|]. split; [discriminate|]. reflexivity.
+    - assert (Hl : l = []).
+      { unfold wire_hosts in Ew. destruct (rev hh); inversion Ew; reflexivity. }
+      subst l.
+      destruct (auth_ok h) eqn:Ea.
+      + exists (Some h). split; [reflexivity|]. split; [intros a E; inversion E; subst; apply auth_text; exact Ea|].
+        pose proof (auth_text _ Ea) as Ht. cbn [text_hd]. rewrite Ht. cbn [first_some].
+        rewrite <- route_general_text_hd. cbn [text_hd]. rewrite Ht. reflexivity.
+      + exists None. split; [reflexivity|]. split; [discriminate|].
+        rewrite first_some_none. apply route_general_text_hd.
+  Qed.
+
+  Lemma tls_accepts_spec ops c sni : build ops = Ok c ->
+    tls_accepts c sni = match reference_general ops sni None with Some _ => true | None => false end.
+  Proof.
+    intros H. unfold tls_accepts. rewrite (get_option_or_default_general _ _ _ H), <- route_general_reference.
+    destruct (route_general ops sni None); reflexivity.
+  Qed.
+
+  Lemma wire_request_spec ops c st r : build ops = Ok c -> wf_wreq r -> tls_refused ops r = false ->
+    wire_request auth_ok fixed c st r
+    = Ok (rstep hstate wreq wire_reply wire_serve (wire_route ops) W409 st r).
+  Proof.
+    intros H Hwf Hnr. unfold wire_request.
+    rewrite (tls_accepts_spec _ _ _ H). unfold tls_refused in Hnr.
+    assert (Hgo : (w_tls r && negb match reference_general ops (w_sni r) None with Some _ => true | None => false end) = false).
+    { destruct (w_tls r); [|reflexivity]. cbn [andb] in *.
+      destruct (reference_general ops (w_sni r) None); [reflexivity | discriminate]. }
+    rewrite Hgo. clear Hgo Hnr.
+    assert (Hserve : forall hh authority, (forall a, authority = Some a -> is_text a) ->
+              route_general ops (w_conn_sni r) (first_some (text_hd hh) authority)
+              = route_general ops (w_conn_sni r) (wire_host_header r) ->
+              match choose_host_uri (fx_h2auth fixed) V1 c (w_conn_sni r) hh authority with
+              | Panic => Panic
+              | Err e => Err e
+              | Ok Refuse409 => Ok (st, W409)
+              | Ok (ServeWith h) =>
+                  let i := hid h in
+                  let (s', rep) := marker_serve i (st i) (w_method r) (w_path r) (w_flags r) in Ok (upd st i s', rep)
+              end = Ok (rstep hstate wreq wire_reply wire_serve (wire_route ops) W409 st r)).
+    { intros hh authority Ha Hroute. cbn [fixed fx_h2auth].
+      rewrite (choose_host_uri_general _ _ _ _ _ H Ha), Hroute.
+      unfold rstep, wire_route, wire_serve. rewrite <- route_general_reference.
+      destruct (route_general ops (w_conn_sni r) (wire_host_header r)) as [h|]; cbn [option_map]; [|reflexivity].
+      destruct (marker_serve (hid h) (st (hid h)) (w_method r) (w_path r) (w_flags r)) as [s' rep]. reflexivity. }
+    destruct (w_tr r =? TR_H2) eqn:Etr.
+    - apply Hserve.
+      + intros a Ea. apply (proj2 Hwf); [apply N.eqb_eq; exact Etr | exact Ea].
+      + unfold wire_host_header. rewrite Etr. reflexivity.
+    - destruct (h1_accept_fixed ops c (w_hosts r) (w_path r) (w_conn_sni r) H (proj1 Hwf)) as [authority [Hacc [Ha Hroute]]].
+      rewrite Hacc. apply Hserve; [exact Ha|].
+      rewrite Hroute. unfold wire_host_header. rewrite Etr. reflexivity.
+  Qed.
+
+  (** The histories of the correspondence: the model of the (repaired) code equals the specification
+      server, for every history none of whose TLS connections is refused during the handshake. *)
+  Lemma wire_history_spec ops c : build ops = Ok c ->
+    forall reqs st,
+    Forall (fun r => wf_wreq r /\ tls_refused ops r = false) reqs ->
+    wire_history auth_ok fixed c st reqs = map Ok (wire_spec ops st reqs).
+  Proof.
+    intros H. induction reqs as [|r rest IH]; intros st Hall; [reflexivity|].
+    inversion Hall as [|x l [Hwf Hr] Hrest]; subst.
+    cbn [wire_history wire_spec].
+    rewrite (wire_request_spec _ _ st r H Hwf Hr).
+    destruct (rstep hstate wreq wire_reply wire_serve (wire_route ops) W409 st r) as [st' rep].
+    cbn [map]. rewrite (IH st' Hrest). reflexivity.
+  Qed.
+
+  (** A TLS connection whose handshake is refused: nothing is sent, no state changes. *)
+  Lemma wire_request_refused ops c st r fx : build ops = Ok c -> tls_refused ops r = true ->
+    wire_request auth_ok fx c st r = Ok (st, WNoTls).
+  Proof.
+    intros H Hr. unfold wire_request. rewrite (tls_accepts_spec _ _ _ H). unfold tls_refused in Hr.
+    destruct (w_tls r); [|discriminate]. cbn [andb] in *.
+    destruct (reference_general ops (w_sni r) None); [discriminate | reflexivity].
+  Qed.
+
+  (** With a default host every lookup finds a host. *)
+  Lemma route_general_with_default ops sni hdr d : dflt_owner ops = Some d -> route_general ops sni hdr <> None.
+  Proof.
+    intros Hd. unfold route_general. destruct (requested_name sni hdr) as [n|]; [|rewrite Hd; discriminate].
+    destruct (own ops n); [discriminate|]. cbn [first_some].
+    destruct (match without_dot n with Some n' => own ops n' | None => None end); [discriminate|]. cbn [first_some].
+    rewrite Hd. discriminate.
+  Qed.
+
+  (** Over TLS a request is never answered with 409: whenever the handshake succeeds, the lookup that chose
+      the certificate has found a host, and the lookup for the request finds one, too. *)
+  Lemma wire_tls_no_409 ops c st r st' : build ops = Ok c -> wf_wreq r -> w_tls r = true ->
+    wire_request auth_ok fixed c st r <> Ok (st', W409).
+  Proof.
+    intros H Hwf Htls.
+    destruct (tls_refused ops r) eqn:Hr.
+    - rewrite (wire_request_refused _ _ _ _ _ H Hr). intros E. inversion E.
+    - rewrite (wire_request_spec _ _ st r H Hwf Hr). unfold rstep, wire_route, wire_serve.
       rewrite <- route_general_reference.
-      destruct (route_general ops None (hd_error (wire_hosts hh))) as [h|]; cbn [option_map]; [|reflexivity].
-      destruct (marker_serve (hid h) (st (hid h)) p) as [s' rep]. reflexivity. }
-    destruct hh as [|h0 hh]; [|exact Hgo].
-    destruct (c_default c) eqn:Hd; [exact Hgo|].
-    exfalso. destruct Hr as [Hr|Hr]; [contradiction Hr; reflexivity|].
-    pose proof (build_from_ok _ _ _ _ H) as [_ [_ [_ Hdf]]].
-    unfold default_name in Hdf. cbn [empty_collection c_default] in Hdf. rewrite Hd in Hdf.
-    destruct (default_index O ops) as [d|] eqn:E; [|contradiction Hr; reflexivity].
-    destruct (default_index_bound _ _ _ E) as [_ [h Hn]]. rewrite Hn in Hdf. discriminate. }
-  rewrite Hreq.
-  destruct (rstep hstate (list bytes * bytes) wire_reply conn_serve (conn_route ops) W409 st (hh, p)) as [st' rep].
-  cbn [map]. rewrite (IH st' Hrest). reflexivity.
+      assert (Hsome : route_general ops (w_conn_sni r) (wire_host_header r) <> None).
+      { unfold tls_refused in Hr. rewrite Htls in Hr. cbn [andb] in Hr.
+        unfold w_conn_sni. rewrite Htls.
+        rewrite <- route_general_reference in Hr.
+        destruct (route_general ops (w_sni r) None) as [h0|] eqn:E0; [|discriminate].
+        destruct (w_sni r) as [s|].
+        - unfold route_general in *. cbn [requested_name] in *. rewrite E0. discriminate.
+        - unfold route_general in E0. cbn [requested_name] in E0.
+          apply (route_general_with_default _ _ _ _ E0). }
+      destruct (route_general ops (w_conn_sni r) (wire_host_header r)) as [h|]; [|contradiction Hsome; reflexivity].
+      cbn [option_map]. unfold marker_serve.
+      destruct (negb (starts_with [47; 104] (w_path r))); [intros E; inversion E|].
+      destruct (if get_or_head_b (w_method r) then cache_get (path_only (w_path r)) (hs_cache (st (hid h))) else None).
+      + destruct (N.testbit (w_flags r) FL_IMS_FUTURE); intros E; inversion E.
+      + intros E; inversion E.
+  Qed.
+End WireProofs.
+
+(** The replies of the repaired code do not depend on what exactly [Authority::try_from] accepts
+    (as long as it accepts only text): the executable model may use any such stand-in. *)
+Lemma wire_request_auth_irrelevant (auth1 auth2 : bytes -> bool) ops c st r :
+  (forall h, auth1 h = true -> is_text h) -> (forall h, auth2 h = true -> is_text h) ->
+  build ops = Ok c -> wf_wreq r ->
+  wire_request auth1 fixed c st r = wire_request auth2 fixed c st r.
+Proof.
+  intros H1 H2 H Hwf. destruct (tls_refused ops r) eqn:Hr.
+  - rewrite !(wire_request_refused _ _ _ _ _ _ H Hr). reflexivity.
+  - rewrite (wire_request_spec auth1 H1 _ _ st r H Hwf Hr), (wire_request_spec auth2 H2 _ _ st r H Hwf Hr). reflexivity.
+Qed.
+
+(** When the client sent an SNI, neither Host header nor [:authority] matter. *)
+Lemma wire_route_sni ops r s : w_tls r = true -> w_sni r = Some s ->
+  wire_route ops r = reference_general ops (Some s) None.
+Proof.
+  intros Ht Hs. unfold wire_route, w_conn_sni. rewrite Ht, Hs.
+  unfold reference_general, requested_name. reflexivity.
+Qed.
+
+(** ---- isolation on these histories: an instance of the frame theorem ------------------------- *)
+Definition wire_events (reqs : list wreq) : list (event wreq unit) := map ERequest reqs.
+Definition wire_routed_to (ops : list op) (i : nat) (r : wreq) : bool :=
+  match wire_route ops r with Some j => Nat.eqb j i | None => false end.
+Notation wire_mrun ops := (mrun hstate wreq wire_reply unit wire_serve (fun _ s => s) (wire_route ops) (fun _ _ => false) W409).
+(** the replies to the requests of the history that were routed to host [i] *)
+Definition wire_replies_for (ops : list op) (i : nat) (reqs : list wreq) (reps : list wire_reply) : list (option wire_reply) :=
+  replies_for wreq wire_reply unit (wire_route ops) (fun _ _ => false) i (wire_events reqs) (map Some reps).
+
+Lemma wire_spec_mrun ops reqs : forall st,
+  map Some (wire_spec ops st reqs) = snd (wire_mrun ops st (wire_events reqs)).
+Proof.
+  induction reqs as [|r rest IH]; intros st; [reflexivity|].
+  cbn [wire_events map wire_spec mrun mstep].
+  destruct (rstep hstate wreq wire_reply wire_serve (wire_route ops) W409 st r) as [st' rep].
+  specialize (IH st'). unfold wire_events in IH.
+  destruct (mrun hstate wreq wire_reply unit wire_serve (fun _ s => s) (wire_route ops) (fun _ _ => false) W409 st' (map ERequest rest)) as [st2 reps].
+  cbn [snd map] in *. rewrite IH. reflexivity.
+Qed.
+
+Lemma wire_events_filter ops i reqs :
+  filter (concerns wreq unit (wire_route ops) (fun _ _ => false) i) (wire_events reqs)
+  = wire_events (filter (wire_routed_to ops i) reqs).
+Proof.
+  induction reqs as [|r rest IH]; [reflexivity|].
+  cbn [wire_events map filter concerns]. unfold wire_routed_to at 1.
+  destruct (match wire_route ops r with Some j => Nat.eqb j i | None => false end); cbn [map];
+    unfold wire_events in IH; rewrite IH; reflexivity.
+Qed.
+
+(** Two histories with the same requests for host [i] — whatever else was asked of the other hosts, over
+    whichever connections — give the same replies to these requests. *)
+Lemma wire_isolation_lemma ops reqs reqs' st st' i :
+  st i = st' i ->
+  filter (wire_routed_to ops i) reqs = filter (wire_routed_to ops i) reqs' ->
+  wire_replies_for ops i reqs (wire_spec ops st reqs) = wire_replies_for ops i reqs' (wire_spec ops st' reqs').
+Proof.
+  intros Hs Hf. unfold wire_replies_for. rewrite !wire_spec_mrun.
+  apply (history_independence hstate wreq wire_reply unit wire_serve (fun _ s => s) (wire_route ops) (fun _ _ => false) W409).
+  - exact Hs.
+  - rewrite !wire_events_filter, Hf. reflexivity.
 Qed.
 
 Lemma choose_host_reference ops c sni hh : build ops = Ok c ->
@@ -840,11 +1251,160 @@ Lemma builder_outcome ops :
   ((2 <= count_defaults ops)%nat -> build ops = Panic).
 Proof. split; [apply build_succeeds | apply build_panics]. Qed.
 
-Lemma absent_host_closed_refuted :
-  exists ops c p, build ops = Ok c /\
-    conn_history V1 c (fun _ => hstate0) [([], p)] = [Ok WClosed] /\
-    conn_spec ops (fun _ => hstate0) [([], p)] = [W409].
+(** ---- concurrent clients: any interleaving ----------------------------------------------------
+    A merged history [m]: the requests of one client (tag [true]) interleaved in any way with the
+    requests of all the others (tag [false]).  If no other request is routed to a host one of the
+    client's requests is routed to, the client gets the replies it would get alone. *)
+Fixpoint tagged_replies (m : list (bool * wreq)) (reps : list wire_reply) : list wire_reply :=
+  match m, reps with
+  | (true, _) :: m', r :: reps' => r :: tagged_replies m' reps'
+  | (false, _) :: m', _ :: reps' => tagged_replies m' reps'
+  | _, _ => []
+  end.
+Definition mine (m : list (bool * wreq)) : list wreq := map snd (filter (fun x => fst x) m).
+Definition others (m : list (bool * wreq)) : list wreq := map snd (filter (fun x => negb (fst x)) m).
+
+Lemma touches_cons ops r l i :
+  wire_touches ops (r :: l) i = (match wire_route ops r with Some j => Nat.eqb j i | None => false end) || wire_touches ops l i.
+Proof. reflexivity. Qed.
+Lemma mine_true r m : mine ((true, r) :: m) = r :: mine m. Proof. reflexivity. Qed.
+Lemma mine_false r m : mine ((false, r) :: m) = mine m. Proof. reflexivity. Qed.
+Lemma others_true r m : others ((true, r) :: m) = others m. Proof. reflexivity. Qed.
+Lemma others_false r m : others ((false, r) :: m) = r :: others m. Proof. reflexivity. Qed.
+
+Lemma concurrent_client ops : forall (m : list (bool * wreq)) (st st' : nat -> hstate),
+  (forall i, wire_touches ops (mine m) i = true -> wire_touches ops (others m) i = false) ->
+  (forall i, wire_touches ops (mine m) i = true -> st i = st' i) ->
+  tagged_replies m (wire_spec ops st (map snd m)) = wire_spec ops st' (mine m).
 Proof.
-  exists [(false, cfg (B "a.test") [])]. eexists. exists (B "/h/page").
-  split; [vm_compute; reflexivity|]. split; vm_compute; reflexivity.
+  induction m as [|[tag r] m IH]; intros st st' Hdis Hst; [reflexivity|].
+  destruct tag.
+  - (* a request of the client *)
+    rewrite mine_true, others_true in *. cbn [map snd wire_spec]. unfold rstep.
+    assert (Htail : forall j, wire_touches ops (mine m) j = true -> wire_touches ops (r :: mine m) j = true).
+    { intros j Hj. rewrite touches_cons, Hj. apply orb_true_r. }
+    destruct (wire_route ops r) as [i|] eqn:Er.
+    + assert (Hi : st i = st' i).
+      { apply Hst. rewrite touches_cons, Er, Nat.eqb_refl. reflexivity. }
+      rewrite <- Hi. destruct (wire_serve i (st i) r) as [s' rep]. cbn [tagged_replies]. f_equal.
+      apply IH.
+      * intros j Hj. apply Hdis, Htail, Hj.
+      * intros j Hj. cbn [upd]. destruct (Nat.eqb j i); [reflexivity|]. apply Hst, Htail, Hj.
+    + cbn [tagged_replies]. f_equal. apply IH.
+      * intros j Hj. apply Hdis, Htail, Hj.
+      * intros j Hj. apply Hst, Htail, Hj.
+  - (* a request of somebody else *)
+    rewrite mine_false, others_false in *. cbn [map snd wire_spec]. unfold rstep.
+    assert (Hd : forall i, wire_touches ops (mine m) i = true ->
+                  match wire_route ops r with Some j => Nat.eqb j i | None => false end = false /\ wire_touches ops (others m) i = false).
+    { intros i Hi. specialize (Hdis i Hi). rewrite touches_cons in Hdis. apply orb_false_iff in Hdis. exact Hdis. }
+    destruct (wire_route ops r) as [j|] eqn:Er.
+    + destruct (wire_serve j (st j) r) as [s' rep]. cbn [tagged_replies].
+      apply IH.
+      * intros i Hi. apply (Hd i Hi).
+      * intros i Hi. cbn [upd]. destruct (Hd i Hi) as [Hne _]. rewrite Nat.eqb_sym, Hne. apply Hst, Hi.
+    + cbn [tagged_replies]. apply IH.
+      * intros i Hi. apply (Hd i Hi).
+      * exact Hst.
+Qed.
+
+(** the authority parser of the [http] crate, as transcribed for C07, accepts only text *)
+Lemma auth_loop_all_uri rest : forall len i colons sb eb pct at_pos e,
+  Http1Read.auth_loop len rest i colons sb eb pct at_pos = Some e -> e = (i + length rest)%nat ->
+  forallb (fun b => Http1Read.uri_char b || (b =? 37)) rest = true.
+Proof.
+  induction rest as [|b r IH]; intros len i colons sb eb pct at_pos e H He; [reflexivity|].
+  cbn [Http1Read.auth_loop] in H. cbn [forallb length] in *.
+  destruct ((b =? 47) || (b =? 63) || (b =? 35)) eqn:Estop.
+  - exfalso. unfold Http1Read.auth_finish in H.
+    destruct (negb (Bool.eqb sb eb)); [discriminate|]. destruct (1 <? colons)%nat; [discriminate|].
+    destruct ((0 <? i)%nat && (at_pos =? i - 1)%nat); [discriminate|]. destruct pct; [discriminate|].
+    inversion H. lia.
+  - destruct (Http1Read.uri_char b) eqn:Eu; cbn [negb orb] in *.
+    + assert (Hr : forallb (fun b0 => Http1Read.uri_char b0 || (b0 =? 37)) r = true).
+      { destruct (b =? 58); [destruct (8 <=? colons)%nat; [discriminate|]; eapply IH; [exact H | lia]|].
+        destruct (b =? 91); [destruct (pct || sb); [discriminate|]; eapply IH; [exact H | lia]|].
+        destruct (b =? 93); [destruct (negb sb || eb); [discriminate|]; eapply IH; [exact H | lia]|].
+        destruct (b =? 64); eapply IH; try exact H; lia. }
+      exact Hr.
+    + destruct (b =? 37) eqn:E37; [|discriminate]. cbn [orb]. eapply IH; [exact H | lia].
+Qed.
+
+Lemma auth_ok_http_text h : auth_ok_http h = true -> is_text h.
+Proof.
+  unfold auth_ok_http, Http1Read.authority_ok, Http1Read.authority_end, is_text, hv_to_str.
+  destruct h as [|c0 h0]; [discriminate|].
+  destruct (Http1Read.auth_loop (length (c0 :: h0)) (c0 :: h0) 0 0 false false false (length (c0 :: h0))) as [e|] eqn:E; [|discriminate].
+  intros He. apply Nat.eqb_eq in He.
+  pose proof (auth_loop_all_uri _ _ _ _ _ _ _ _ _ E ltac:(cbn [Nat.add]; exact He)) as Hall.
+  assert (Hv : forallb hv_visible (c0 :: h0) = true).
+  { revert Hall. generalize (c0 :: h0). intros l. induction l as [|c l IH]; [reflexivity|].
+    cbn [forallb]. intros Hc. apply andb_prop in Hc as [Hc Hl]. rewrite (IH Hl), andb_true_r.
+    unfold Http1Read.uri_char in Hc. unfold hv_visible. lia. }
+  rewrite Hv. reflexivity.
+Qed.
+
+(** hence, for the transcribed parser, without any hypothesis about it: *)
+Lemma wire_history_spec_http ops c : build ops = Ok c ->
+  forall reqs st,
+  Forall (fun r => wf_wreq r /\ tls_refused ops r = false) reqs ->
+  wire_history auth_ok_http fixed c st reqs = map Ok (wire_spec ops st reqs).
+Proof. apply (wire_history_spec auth_ok_http auth_ok_http_text). Qed.
+
+(** ---- refutations: the code before the repairs of this round, and what remains ----------------- *)
+Definition ab_ops : list op := [ (false, cfg (B "a.test") []); (false, cfg (B "b.test") []) ].
+Definition ab_default_ops : list op := [ (false, cfg (B "a.test") []); (true, cfg (B "b.test") []) ].
+Definition get1 (tr : N) (sni : option bytes) (hh : list bytes) (authority : option bytes) : wreq :=
+  mkW tr sni false s_GET hh authority (B "/h/page") 0.
+
+(** before 2fb2d8c: a request without Host header is not answered when there is no default host *)
+Lemma absent_host_closed_refuted : forall auth_ok : bytes -> bool,
+  exists ops c r, build ops = Ok c /\
+    wire_history auth_ok snapshot c (fun _ => hstate0) [r] = [Ok WClosed] /\
+    wire_spec ops (fun _ => hstate0) [r] = [W409] /\
+    wire_history auth_ok fixed c (fun _ => hstate0) [r] = [Ok W409].
+Proof.
+  intros auth_ok. exists ab_ops. eexists. exists (get1 TR_PLAIN None [] None).
+  split; [vm_compute; reflexivity|]. split; [|split]; vm_compute; reflexivity.
+Qed.
+
+(** before cdbcb3a: a Host value that is not a URI authority closes the connection, also when there is a
+    default host that the property names as the one to answer *)
+Lemma bad_authority_closed_refuted : forall auth_ok : bytes -> bool, auth_ok (B "a b") = false ->
+  exists ops c r, build ops = Ok c /\
+    wire_history auth_ok (mkFixes true false false) c (fun _ => hstate0) [r] = [Ok WClosed] /\
+    wire_spec ops (fun _ => hstate0) [r] = [W200 1 1] /\
+    wire_history auth_ok fixed c (fun _ => hstate0) [r] = [Ok (W200 1 1)].
+Proof.
+  intros auth_ok Hbad. vm_compute in Hbad.
+  exists ab_default_ops. eexists. exists (get1 TR_PLAIN None [B "a b"] None).
+  split; [vm_compute; reflexivity|].
+  split; [|split]; vm_compute; try rewrite Hbad; reflexivity.
+Qed.
+
+(** before fff35ad: an HTTP/2 request without SNI is answered by the default host whatever its :authority *)
+Lemma h2_authority_ignored_refuted : forall auth_ok : bytes -> bool,
+  exists ops c r, build ops = Ok c /\
+    wire_history auth_ok (mkFixes true true false) c (fun _ => hstate0) [r] = [Ok (W200 1 1)] /\
+    wire_spec ops (fun _ => hstate0) [r] = [W200 0 1] /\
+    wire_history auth_ok fixed c (fun _ => hstate0) [r] = [Ok (W200 0 1)].
+Proof.
+  intros auth_ok. exists ab_default_ops. eexists. exists (get1 TR_H2 None [] (Some (B "a.test"))).
+  split; [vm_compute; reflexivity|]. split; [|split]; vm_compute; reflexivity.
+Qed.
+
+(** today (known class tls-handshake-refused): over TLS the host of the certificate is chosen from the SNI
+    alone.  (a) an unknown SNI without default host: the handshake is refused, no 409 is sent;
+    (b) no SNI and no default host: refused although the Host header names a loopback name. *)
+Lemma tls_handshake_refused_refuted : forall auth_ok : bytes -> bool,
+  exists ops c ra rb, build ops = Ok c /\
+    tls_refused ops ra = true /\ tls_refused ops rb = true /\
+    wire_history auth_ok fixed c (fun _ => hstate0) [ra] = [Ok WNoTls] /\
+    wire_spec ops (fun _ => hstate0) [ra] = [W409] /\
+    wire_history auth_ok fixed c (fun _ => hstate0) [rb] = [Ok WNoTls] /\
+    wire_spec ops (fun _ => hstate0) [rb] = [W200 0 1].
+Proof.
+  intros auth_ok. exists ab_ops. eexists.
+  exists (get1 TR_TLS1 (Some (B "nobody.test")) [B "a.test"] None), (get1 TR_TLS1 None [B "localhost"] None).
+  split; [vm_compute; reflexivity|]. repeat split; vm_compute; reflexivity.
 Qed.
